@@ -615,11 +615,32 @@ def run_real(scn, exe, workdir):
     inp = b"".join(l + b"\n" for l in lines)
     t0 = time.time()
     status = "ok"
+    # the client's output goes to files with a size limit: a client that prints without end (a prompt in a loop) is stopped
+    # by the kernel (SIGXFSZ) instead of filling the memory of this process
+    outdir = workdir + ".io"
+    shutil.rmtree(outdir, ignore_errors=True)
+    os.makedirs(outdir)
+    so_path, se_path, si_path = (os.path.join(outdir, n) for n in ("stdout", "stderr", "stdin"))
+    with open(si_path, "wb") as f:
+        f.write(inp)
+
+    def limits():
+        import resource
+        resource.setrlimit(resource.RLIMIT_FSIZE, (16 << 20, 16 << 20))
+
     try:
-        p = subprocess.run([exe], input=inp, cwd=workdir, stdout=subprocess.PIPE, stderr=subprocess.PIPE, timeout=RUN_TIMEOUT)
-        rc, out, err = p.returncode, p.stdout, p.stderr
-    except subprocess.TimeoutExpired as e:
-        status, rc, out, err = "blocked", None, e.stdout or b"", e.stderr or b""
+        with open(so_path, "wb") as fo, open(se_path, "wb") as fe, open(si_path, "rb") as fi:
+            try:
+                p = subprocess.run([exe], stdin=fi, cwd=workdir, stdout=fo, stderr=fe, timeout=RUN_TIMEOUT, preexec_fn=limits)
+                rc = p.returncode
+            except subprocess.TimeoutExpired:
+                status, rc = "blocked", None
+        with open(so_path, "rb") as f:
+            out = f.read(17 << 20)
+        with open(se_path, "rb") as f:
+            err = f.read(1 << 20)
+    finally:
+        shutil.rmtree(outdir, ignore_errors=True)
     pc.finish(0.5)
     files = {}
     for n in os.listdir(wd):
@@ -735,7 +756,8 @@ def out_regex(items):
         elif k == "R":
             rx.append(re.escape(v))
         elif k == "E":
-            rx.append(rb"(?s:.*?)\n")
+            # what() of an ftp_exception: system-dependent text - but never one of the application's own messages
+            rx.append(rb"(?!usage: |Invalid |Connection is not open|Already connected|File '|Cannot create file|Cannot open file)(?s:.*?)\n")
         elif k == "B":
             rx.append(rb"Transmitting data\.\.\.\.*")
         elif k == "N":
